@@ -111,6 +111,7 @@ type env struct {
 	w      *wr
 	gen    atomic.Int64
 	failed atomic.Bool
+	soft   atomic.Bool // a violation was reported but the history went on
 	incon  atomic.Bool
 	idSeq  int
 
@@ -129,13 +130,25 @@ func (e *env) feat(f string) {
 }
 
 func (e *env) violate(sig, what string, extra map[string]any) {
-	if e.failed.Swap(true) {
+	if e.guard && !strings.Contains(sig, "verifycrc") {
+		sig += "|verifycrc=true"
+	}
+	// An aborted snapshot that is still offered is a wrong answer, not a wrong state: the history
+	// can go on legally (the next session resynchronises), so it is reported once and the history
+	// continues — otherwise this frequent alarm would hide everything that comes later.
+	if strings.Contains(sig, "snapshot=incomplete") {
+		e.mu.Lock()
+		seen := e.feats["reported:"+sig]
+		e.feats["reported:"+sig] = true
+		e.mu.Unlock()
+		if seen {
+			return
+		}
+		e.soft.Store(true)
+	} else if e.failed.Swap(true) {
 		// one witness per history is enough; later alarms of the same history are usually
 		// consequences of the first
 		return
-	}
-	if e.guard && !strings.Contains(sig, "verifycrc") {
-		sig += "|verifycrc=true"
 	}
 	w := map[string]any{"config": e.cfg, "history": e.h.Events()}
 	for k, v := range extra {
@@ -376,7 +389,7 @@ func (e *env) newRdbWriter(left, size int64) *wr {
 	e.rememberEpoch()
 	rid := e.m.Cur().RunID()
 	ep := e.m.NewEpoch(rid)
-	f := cm.NewFeed(e.m.PRF, ep.ID, cm.Rdb, 0)
+	f := cm.NewFeed(e.m.PRF, ep.RdbID(left), cm.Rdb, 0)
 	ep.BeginRdb(left, size, f)
 	c := e.h.Call("ctl", "NewRdbWriter", fmt.Sprintf("left=%d size=%d epoch=%d", left, size, ep.ID))
 	w, err := e.ch.NewRdbWriter(f, left, size)
@@ -399,7 +412,7 @@ func (e *env) newAofWriter(off int64, mustAccept bool) *wr {
 	e.m.BeginChange()
 	defer e.m.EndChange()
 	ep := e.m.Cur()
-	f := cm.NewFeed(e.m.PRF, ep.ID, cm.Aof, off)
+	f := cm.NewFeed(e.m.PRF, ep.AofID(), cm.Aof, off)
 	c := e.h.Call("ctl", "NewAofWritter", fmt.Sprintf("off=%d epoch=%d", off, ep.ID))
 	w, err := e.ch.NewAofWritter(f, off)
 	e.h.Ret("ctl", c, fmt.Sprintf("err=%v", err))
@@ -1169,7 +1182,7 @@ func (e *env) sequential() {
 	prevLeft := int64(-1)
 	for s := 0; s < nSess && !e.stopped(); s++ {
 		ids := []string{src}
-		if s > 0 && rng.Intn(4) == 0 { // the source got a new replication id and remembers the old one
+		if s > 0 && rng.Intn(3) == 0 { // the source got a new replication id and remembers the old one
 			old := src
 			src = e.newID()
 			ids = []string{src, old}
@@ -1253,9 +1266,10 @@ func (e *env) sequential() {
 
 // directedStaleReader: a shape the random generator reaches rarely, generated directly (sizes
 // still PRNG): a reader is obtained at the left edge but its caller is slow to start it; the
-// cache is reset by a full resync that begins at the same replication offset (an idle source)
-// and the new stream rotates through several segments; then the old reader is started.  It may
-// deliver the bytes of its own epoch it still holds, or nothing; never the new epoch's.
+// cache is reset by a full resync from another source (new replication id) that begins at the
+// same replication offset, and the new stream rotates through several segments; then the old
+// reader is started.  It may deliver the bytes of its own epoch it still holds, or nothing;
+// never the other source's.
 func (e *env) directedStaleReader() {
 	rng := e.rng
 	src := e.newID()
@@ -1263,8 +1277,11 @@ func (e *env) directedStaleReader() {
 	seg := int(e.cfg.LogSize)
 	var stale []*rdr
 	for s := 0; s < 2 && !e.stopped(); s++ {
+		if s == 1 {
+			src = e.newID() // another source (restarted / replaced master) whose offsets happen to coincide
+		}
 		e.startPoint([]string{src})
-		e.h.Note("session %d mode=full (directed: stale reader, same left)", s)
+		e.h.Note("session %d mode=full (directed: stale reader, other source, same left)", s)
 		e.delRunId(e.ch.RunId())
 		e.setRunId(src)
 		size := int64(1 + rng.Intn(2*seg))
@@ -2004,7 +2021,9 @@ func (e *env) account() {
 	e.mu.Lock()
 	fs := make([]string, 0, len(e.feats))
 	for f := range e.feats {
-		fs = append(fs, f)
+		if !strings.HasPrefix(f, "reported:") {
+			fs = append(fs, f)
+		}
 	}
 	maxFiles := e.maxAofFiles
 	e.mu.Unlock()
@@ -2018,7 +2037,7 @@ func (e *env) account() {
 	if maxFiles > 0 {
 		run.Count("disk_segment_files_seen_max_sum", int64(maxFiles))
 	}
-	if e.stopped() {
+	if e.stopped() || e.soft.Load() {
 		return
 	}
 	sig := e.be() + "|" + e.cfg.Mode + "|" + strings.Join(fs, "+")
@@ -2108,7 +2127,7 @@ func main() {
 	case "crc":
 		nSeq, nConc = 0, 0
 	}
-	workers := 12
+	workers := run.N(12, 16)
 	runtime.GOMAXPROCS(16)
 	harness.Parallel(nSeq, workers, func(i int) {
 		runCase(run, fmt.Sprintf("seq-%d", i), "sequential", i, 16)
